@@ -111,7 +111,7 @@ func popcount(a []uint64) int {
 }
 
 func runC16(c *Ctx) {
-	c.Res.Rule = "exhaustive: every ordered pair of valid patterns over {a,b,*,>} (> last only) up to 4 tokens, decided against all literal subjects over {a,b,c} up to 5 tokens, for v2 and v1compat; plus random longer patterns over a wider alphabet decided against literals built from the patterns' own tokens and a fresh token. non-trivial = distinct (package, p, q) pairs."
+	c.Res.Rule = "exhaustive: every ordered pair of valid patterns over {a,b,*,>} (> last only) up to 4 tokens, decided against all literal subjects over {a,b,c} up to 5 tokens, for v2 and v1compat; plus random longer patterns over a wider alphabet (tokens that merely contain a wildcard character, multi-byte tokens) with HasWildCards judged by whole tokens and containment decided against literals built from the patterns' own tokens and a fresh token. non-trivial = distinct (package, p, q) pairs."
 	pats := enumSeqs([]string{"a", "b", "*"}, 4, []string{">"})
 	lits := enumSeqs([]string{"a", "b", "c"}, 5, nil)
 	sets := bruteSets(pats, lits)
@@ -154,7 +154,7 @@ func runC16(c *Ctx) {
 	c.Res.Exhaustive = true
 
 	// random longer patterns (not part of the exhaustive claim)
-	alpha := []string{"a", "b", "foo", "x-y", "$1", "*", "*", "*a", "a*", ">x"}
+	alpha := []string{"a", "b", "foo", "x-y", "$1", "*", "*", "*a", "a*", ">x", "é", "日本", "заказы", "ab"}
 	n := c.N(3000, 200000)
 	for k := 0; k < n; k++ {
 		mk := func() []string {
@@ -188,6 +188,18 @@ func runC16(c *Ctx) {
 			}
 		}
 		ps, qs := strings.Join(p, "."), strings.Join(q, ".")
+		// HasWildCards on the same (longer, partly non-ASCII) patterns: a whole-token `*` anywhere or a final `>`
+		for _, pkg := range []string{"v2", "v1compat"} {
+			wantW := p[len(p)-1] == ">"
+			for _, t := range p {
+				if t == "*" {
+					wantW = true
+				}
+			}
+			if w := implWild(pkg, ps); w != wantW {
+				c.Violate("wildcards", "HasWildCards("+ps+") = "+b2s(w)+" ("+pkg+") but the pattern "+map[bool]string{true: "has", false: "has no"}[wantW]+" wildcard token", c16Replay{"wild", pkg, ps, ""})
+			}
+		}
 		got := jwt.Subject(ps).IsContainedIn(jwt.Subject(qs))
 		c.Op(b2s(got), true, "contained", hx(ps), hx(qs))
 		want := semContainedLocal(p, q)
